@@ -59,3 +59,34 @@ def snapshot(cfg):
         repr(cfg.S),
         sorted(map(repr, cfg.N)),
     )
+
+
+def lib_wfsa(M, c, cls="base"):
+    from genlm.grammar.wfsa import base, field_wfsa
+
+    K = base.WFSA if cls == "base" else field_wfsa.WFSA
+    m = K(M.lib)
+    for q in c["states"]:
+        m.add_state(sym(q))
+    for q, w in c["start"]:
+        m.add_I(sym(q), M.to_lib(M.parse(w)))
+    for q, w in c["stop"]:
+        m.add_F(sym(q), M.to_lib(M.parse(w)))
+    for q, a, r, w in c["arcs"]:
+        m.add_arc(sym(q), sym(a), sym(r), M.to_lib(M.parse(w)))
+    return m
+
+
+def lib_fst(M, c):
+    from genlm.grammar import FST
+
+    t = FST(M.lib)
+    for q in c["states"]:
+        t.add_state(sym(q))
+    for q, w in c["start"]:
+        t.add_I(sym(q), M.to_lib(M.parse(w)))
+    for q, w in c["stop"]:
+        t.add_F(sym(q), M.to_lib(M.parse(w)))
+    for q, a, b, r, w in c["arcs"]:
+        t.add_arc(sym(q), (sym(a), sym(b)), sym(r), M.to_lib(M.parse(w)))
+    return t
